@@ -1140,6 +1140,11 @@ def c10_check(case):
 
 def reif_graph_gen(rng, spec):
     m = py_model(spec)
+    if spec == 'amr' and maybe(rng, 0.35):
+        try:
+            return layout.interpret(Tree(gen.reified_tree(rng)), m)
+        except Exception:  # noqa: BLE001
+            pass
     g = gen.gen_graph(rng, spec, mode=rng.choice(['decoded', 'decoded', 'hand']))
     return g
 
@@ -1234,7 +1239,7 @@ def apply_transform(name, g, m):
 
 def c12_gen(rng):
     spec = rng.choice(['amr', 'amr', gen.CUSTOM_MODELS[1], 'default'])
-    g = gen.gen_graph(rng, spec, mode=rng.choice(['decoded', 'decoded', 'hand', 'hand']))
+    g = reif_graph_gen(rng, spec) if maybe(rng, 0.5) else gen.gen_graph(rng, spec, mode=rng.choice(['decoded', 'hand']))
     if maybe(rng, 0.25) and g.triples:
         g._top = rng.choice(sorted(g.variables()))
     k = rng.randint(1, 4)
@@ -1296,9 +1301,8 @@ def c12_check(case):
             back = penman.decode(s, model=m)
         except Exception as e:  # noqa: BLE001
             return f'after {name}: decode raised {type(e).__name__}: {e}'
-        if not wf_graph(cur, m, connected=True) and wf_graph(before, m):
-            # roles such as :ARG1-of-of cannot arise; anything else is a well-formedness loss
-            return f'{name}: result is not well-formed/connected'
+        if cur.triples and not weakly_connected_to(cur, cur.top):
+            return f'{name}: result is not connected'
         if graph_content(back, m) != graph_content(cur, m):
             return f'after {name}: decode(encode(g)) differs from g: {s!r}'
     return None
